@@ -3,7 +3,9 @@
    (join contiguity in the stream LTS, variant [fixed] = the code with the join mutex) and
    Proofs/C02ClassifyProofs.v (byte-level classification, FLV join timestamps). *)
 From Coq Require Import ZArith List Bool.
-From V Require Import StreamLts Cache LtsWire C02Classify CacheProofs LtsJoinProofs C02ClassifyProofs.
+From V Require Import C08Flv.
+From V Require Import StreamLts Cache LtsWire C02Classify CacheProofs LtsJoinProofs C02ClassifyProofs
+                      C02FlvProducer C02FlvProducerProofs.
 Import ListNotations.
 
 (* ---------------- A. what the cache replays ---------------- *)
@@ -192,6 +194,46 @@ Theorem C02_flv_model_passes : forall gopon tags,
 Proof. exact flv_model_passes. Qed.
 Print Assumptions C02_flv_model_passes.
 
+(* ---------------- D. where the FLV key flag comes from ---------------- *)
+
+(* the FLV cache restarts its GOP at a tag whose frame-type nibble says "key frame"; the nibble is
+   written by the FLV packetizers (model of C08) from the NAL unit type.  Composition: the tag the
+   packetizer writes for a video frame is a key start for the cache (kind 2) iff the unit is an IDR
+   (H.264 type 5) / IRAP (H.265 types 16..21) picture — the same class the RTP caches use — and a
+   plain media tag (kind 1) otherwise *)
+Theorem C02_flv_key_from_nal : forall c f b rest,
+  f_kind f = 0%Z -> f_data f = b :: rest -> byte_ok b = true ->
+  exists t, packetize c f = Some [t] /\
+            tag_kind t = (if Z.eqb (nal_class (if c_hevc c then H265 else H264) (b :: rest)) 2 then 2 else 1)%Z.
+Proof. exact flv_key_from_nal_class. Qed.
+Print Assumptions C02_flv_key_from_nal.
+
+(* everything the muxer writes for a stream with known parameter sets: metadata (5), video
+   sequence header (3), audio sequence header (4, with AAC), then per frame 2 / 1 as above *)
+Theorem C02_flv_mux_kinds : forall c fs v,
+  fs <> [] -> sets_known c = true -> vseq_tag c = Some v ->
+  map tag_kind (mux c fs) = config_kinds c ++ frame_kinds c fs.
+Proof. exact mux_kinds. Qed.
+Print Assumptions C02_flv_mux_kinds.
+
+(* with cache_is_spec: after any frame list the FLV cache replays the specification of part A on
+   those kinds — the latest configuration tags, then the tags from the last IDR / IRAP frame on *)
+Theorem C02_flv_gop_after_frames : forall c fs v,
+  fs <> [] -> sets_known c = true -> vseq_tag c = Some v ->
+  let tags := mux c fs in
+  let ft := ftags_from 0 (map tag_kind tags) (map C08Flv.t_ts tags) in
+  map C02Classify.t_kind ft = config_kinds c ++ frame_kinds c fs /\
+  map ftag_pkt (snd (fc_push (fold_left fc_add ft (fc_empty true)))) = spec_snap true (map ftag_pkt ft).
+Proof. exact flv_gop_after_frames. Qed.
+Print Assumptions C02_flv_gop_after_frames.
+
+Theorem C02_flv_producer_model_passes : forall hevc aac fs,
+  let kinds := prod_kinds hevc aac fs in let tss := prod_tss hevc aac fs in
+  prod_ok hevc aac fs kinds
+          (map (fun t => (C02Classify.t_id t, C02Classify.t_ts t)) (flv_pushed true kinds tss)) tss = true.
+Proof. exact prod_model_passes. Qed.
+Print Assumptions C02_flv_producer_model_passes.
+
 (* ---------------- non-vacuity ---------------- *)
 
 (* a live-stream schedule (no TClose) on the repaired code in which consumer 0 joins after SPS, PPS
@@ -214,7 +256,13 @@ Example C02_nonvacuous :
   pform_ok H264 (PSingle [101; 136; 132]%Z) = true /\
   pform_ok H264 (PAgg 96 0 [[103; 66; 0]; [104; 206]]%Z) = true /\
   pform_ok H265 (PFrag [38; 1; 175; 8; 64; 9]%Z [1; 3]%nat) = true /\
-  map (classify H265 0) (packetise H265 (PFrag [38; 1; 175; 8; 64; 9]%Z [1; 3]%nat)) = [CK 2; CK 1].
+  map (classify H265 0) (packetise H265 (PFrag [38; 1; 175; 8; 64; 9]%Z [1; 3]%nat)) = [CK 2; CK 1] /\
+  (* H.265 IDR, trailing picture, CRA (type 21), trailing picture through the muxer model: the CRA
+     frame restarts the GOP *)
+  (sets_known (prod_cfg true false) = true /\
+   prod_kinds true false [mkFrame 0 0 0 [38; 1; 7]; mkFrame 0 40000000 40000000 [2; 1; 7];
+                          mkFrame 0 80000000 80000000 [42; 1; 7]; mkFrame 0 120000000 120000000 [2; 1; 7]]%Z
+     = [5; 3; 2; 1; 2; 1]%Z).
 Proof.
   split.
   - repeat constructor; discriminate.
